@@ -21,6 +21,9 @@ Macro table entry (function M below):
   inst   {'quick': [...], 'thorough': [...], 'sample': [...], 'deep': [...]} parameter dicts: exhaustive theorem instances
          per tier, the larger sizes that are only SAMPLED on the real engines, and (optional) instances too expensive
          for the thorough budget - they are SAMPLED (many operands) in thorough and enumerated only with FJVERIF_STL_DEEP=1
+  rerun  {'quick': [(params, {placeholder: (lo, hi)})], 'thorough': [...]}: instances of the "same code instance twice"
+         harness (stl.make_rerun) when the default (smallest quick instance) is not the right one - e.g. hex.mul needs
+         n >= 2 for its private dst/src vectors to be left dirty; the ranges restrict the enumerated operands
   seq    call template on the shared variables {x} {y} {z} when the macro takes part in the composition harness
   pin    {placeholder: garbage value} - instances whose parameter dict carries pin=1 restrict the enumerated domain of
          these (pure OUTPUT) variables to that one value (masked to the variable size) so that the inputs stay
@@ -196,8 +199,8 @@ def spec_fn(inst):
 # macro tables
 
 def M(name, file, sig, call, vars, spec, exits=0, temps=(), inst=None, seq=None, pin=None, note=None, guard=None,
-      witness=None, sweep=None):
-    e = dict(name=name, file=file, sig=sig, call=call, vars=list(vars), spec=spec, exits=exits,
+      witness=None, sweep=None, rerun=None):
+    e = dict(rerun=rerun, name=name, file=file, sig=sig, call=call, vars=list(vars), spec=spec, exits=exits,
              temps=list(temps), inst=inst, seq=seq, pin=pin or {}, note=note, guard=guard, witness=witness, sweep=sweep)
     if sweep is None:
         keys = {k for t in ('quick', 'thorough', 'sample') for p in inst[t] for k in p if k not in ('w', 'pin')}
@@ -359,6 +362,7 @@ HEX = [
     # ---- hex/mul.fj
     M('hex.mul', 'hex/mul.fj', 'def mul n, res, a, b', 'hex.mul {n}, {a}, {b}, {c}',
       [('a', 'hex', 'n'), ('b', 'hex', 'n'), ('c', 'hex', 'n')], 'hex_mul {n}', temps=T_HEXMUL, pin={'a': 0xa5},
+      rerun={'quick': [(dict(n=2, pin=1), {'c': (0, 16)})], 'thorough': [(dict(n=2, pin=1), {'c': (0, 64)})]},
       inst={'quick': N_(1), 'thorough': N_(1) + N_(2, pin=1, w=[64]), 'sample': N_(2, 4, 8)}, seq='hex.mul {n}, {z}, {x}, {y}'),
     M('hex.mul10', 'hex/mul.fj', 'def mul10 n, x', 'hex.mul10 {n}, {a}', [('a', 'hex', 'n')], 'hex_mul10 {n}', inst=H1,
       seq='hex.mul10 {n}, {x}'),
@@ -369,6 +373,7 @@ HEX = [
     M('hex.div', 'hex/div.fj', 'def div n, nb, q, r, a, b, div0', 'hex.div {n}, {nb}, {q}, {r}, {a}, {b}, {x1}',
       [('q', 'hex', 'n'), ('r', 'hex', 'nb'), ('a', 'hex', 'n'), ('b', 'hex', 'nb')], 'hex_div {n} {nb}', exits=1,
       temps=T_HEXDIV, pin={'q': 0x3c, 'r': 0x59},
+      rerun={'quick': [(dict(n=2, nb=1, pin=1), {'b': (1, 5)})], 'thorough': [(dict(n=2, nb=1, pin=1), {})]},
       inst={'quick': [dict(n=1, nb=1, pin=1)],
             'thorough': [dict(n=1, nb=1, w=[64]), dict(n=1, nb=1, pin=1, w=[32]), dict(n=2, nb=1, pin=1)],
             'deep': [dict(n=2, nb=2, pin=1, w=[64])],
@@ -377,6 +382,8 @@ HEX = [
       'hex.idiv {n}, {nb}, {q}, {r}, {a}, {b}, {x1}, {ro}',
       [('q', 'hex', 'n'), ('r', 'hex', 'nb'), ('a', 'hex', 'n'), ('b', 'hex', 'nb')], 'hex_idiv {n} {nb} {ro}', exits=1,
       temps=T_HEXIDIV, pin={'q': 0x3c, 'r': 0x59},
+      rerun={'quick': [(dict(n=2, nb=1, ro=0, pin=1), {'b': (6, 10)})],
+             'thorough': [(dict(n=2, nb=1, ro=ro, pin=1), {}) for ro in (0, 1, 2)]},
       inst={'quick': [dict(n=1, nb=1, ro=ro, pin=1) for ro in (0, 1, 2)],
             'thorough': [dict(n=1, nb=1, ro=ro, pin=1) for ro in (0, 1, 2)] + [dict(n=2, nb=1, ro=ro, pin=1, w=[64]) for ro in (0, 1, 2)],
             'deep': [dict(n=1, nb=1, ro=0, w=[64])] + [dict(n=2, nb=2, ro=ro, pin=1, w=[64]) for ro in (0, 1, 2)],
